@@ -1,13 +1,14 @@
 #!/bin/bash
 # usage: tools/sweep.sh <tier> <seed...>   runs every check at the given seeds on the current tree, prints one line per run
 TIER=$1; shift
-cd /verif && ./check build >/dev/null 2>&1
+cd "$(dirname "$0")/.." && ./check build >/dev/null 2>&1
+LOG=${SWEEP_LOG_DIR:-/tmp}
 for SEED in "$@"; do
   for ID in C01 C02 C03 C04 C05 C06 C07 C08 C09 C10 C11 C12 C13 C14 C15 C16 C17 C18 C19 C20; do
     T0=$(date +%s)
-    VERIF_SEED=$SEED ./check $ID $TIER > /tmp/sweep.$ID.$SEED.log 2>&1; RC=$?
+    VERIF_SEED=$SEED ./check $ID $TIER > $LOG/sweep.$ID.$SEED.$TIER.log 2>&1; RC=$?
     T1=$(date +%s)
-    V=$(grep -c '^VIOLATION' /tmp/sweep.$ID.$SEED.log); K=$(grep -c '^KNOWN-FINDING' /tmp/sweep.$ID.$SEED.log); I=$(grep -c '^INCONCLUSIVE' /tmp/sweep.$ID.$SEED.log)
+    V=$(grep -c '^VIOLATION' $LOG/sweep.$ID.$SEED.$TIER.log); K=$(grep -c '^KNOWN-FINDING' $LOG/sweep.$ID.$SEED.$TIER.log); I=$(grep -c '^INCONCLUSIVE' $LOG/sweep.$ID.$SEED.$TIER.log)
     echo "$ID seed=$SEED tier=$TIER exit=$RC violations=$V known=$K inconclusive=$I wall=$((T1-T0))s"
   done
 done
